@@ -112,7 +112,7 @@ macro "okp" : tactic => `(tactic|
 theorem apiMakeEmpty_ok {co so : Nat} {kind : Kind} {sent : Option Val} {P : List Nat} {e : MapObj}
     (h : apiMakeEmpty co so kind sent P = .ok e) :
     co ≤ so ∧ e.covord = co ∧ e.spord = so ∧ e.kind = kind ∧ e.view = none ∧
-    e.st = makeEmpty (cfgOf co so) ⟨kind.blank e.sent, kind.valid e.sent⟩ P := by
+    e.st = makeEmpty (cfgOf co so) ⟨kind.blank e.sent, kind.valid e.sent⟩ P.eraseDups := by
   unfold apiMakeEmpty at h
   simp only [bind, Except.bind, pure, Except.pure, throw, throwThe, MonadExceptOf.throw] at h
   repeat' split at h
